@@ -1,4 +1,4 @@
 SPECIFICATION Spec
-CONSTANTS Thorough = FALSE StopNeedsSolved = FALSE MaxIter = 120
+CONSTANTS Thorough = FALSE MaxN = 3 StopNeedsSolved = FALSE MaxIter = 120
 INVARIANTS Inv
 CHECK_DEADLOCK FALSE
